@@ -110,6 +110,15 @@ async def _run(case):
                     v = _payload(counter + 1000 * op[1], op[3], op[4])
                     sim.send(op[1], op[2], v)
                     await sim.drain()
+            elif t == 14:
+                # a burst: several send() calls (usually on different channels) before the event loop runs once, so that
+                # one _data_channel_flush handles all of them
+                for idx, typ, size in op[2]:
+                    if idx < len(sim.channels[op[1]]):
+                        obs["steps"] += 1
+                        counter = len(sim.sends) + 1
+                        sim.send(op[1], idx, _payload(counter + 1000 * op[1], typ, size))
+                await sim.drain()
             elif t == 2:
                 await sim.deliver(op[1], op[2])
             elif t == 3:
@@ -305,7 +314,11 @@ def gen_scenario(rng, reliable_only=False, pr=False, origins=None, nops=None, bi
             ops.append([5, rng.randrange(2)])
         elif k < 0.965:
             ops.append([13, rng.randrange(2), rng.choice([0, 0, 1, 2, 3, rng.randrange(40)])])
-        elif k < 0.975:
+        elif k < 0.985 and chans[0] + chans[1] > 1:
+            tot = chans[0] + chans[1]
+            ops.append([14, rng.randrange(2), [[rng.randrange(tot), rng.randrange(2), rng.choice([1, 10, 100, 1200, 2400])]
+                                               for _ in range(rng.randrange(2, 6))]])
+        elif k < 0.992:
             ops.append([7, rng.choice([100, 600, 3000])])
         else:
             ops.append([9])
